@@ -13,7 +13,7 @@ import (
 
 func init() {
 	register(&Rule{ID: "R20", Name: "STICKY", Floor: 25,
-		Text: "each chainable QFrame/Grouper method, each FilterClause.filter, each Expression.execute, the three writers and Len are explored under the assumption that the incoming frame (or grouper) carries an error: branches on its Err resolve accordingly, frames returned by other such operations on an errored frame are errored (greatest fixpoint over the operation set). On every path that remains feasible: no column kernel (Column.Filter/Apply1/Apply2/Aggregate/Subset/Rolling) is invoked, no user-supplied function value is called, and what is returned is errored (a frame/grouper carrying the error, a non-nil error, Len = -1)",
+		Text: "each chainable QFrame/Grouper method, each FilterClause.filter, each Expression.execute, the three writers and Len are explored under the assumption that the incoming frame (or grouper) carries an error: branches on its Err resolve accordingly, frames returned by other such operations on an errored frame carry that error (greatest fixpoint over the operation set). On every path that remains feasible: no column kernel (Column.Filter/Apply1/Apply2/Aggregate/Subset/Rolling) is invoked, no user-supplied function value is called, and what is returned is errored (a frame/grouper carrying the incoming error - the frame itself, a copy whose Err is untouched, or one whose Err is set from the incoming Err, possibly wrapped by qerrors.Propagate, never a freshly constructed error; a non-nil error; Len = -1)",
 		Run:  runR20})
 }
 
@@ -191,7 +191,7 @@ func stickyAnalyse(p *Prog, res *callResolver, pr stickyPair, passing map[sticky
 							if fs, ok := r2.(*ssa.Store); ok && fs.Addr == ssa.Value(s) {
 								if fnm == "Err" {
 									n++
-									if !errValueNonNil(fs.Val, errored) {
+									if !errValueIncoming(fs.Val, errored) {
 										whole = false
 									}
 								}
@@ -204,7 +204,13 @@ func stickyAnalyse(p *Prog, res *callResolver, pr stickyPair, passing map[sticky
 				return t.Index == 0 && errored[t.Tuple] && isFrameType(t.Type())
 			case *ssa.Call:
 				if o := calleeObj(t); o != nil && p.isErrSetter(o) {
-					return true
+					// the error installed must be the incoming one (possibly wrapped), not a fresh one
+					for _, a := range t.Call.Args {
+						if isErrorType(a.Type()) {
+							return errValueIncoming(a, errored)
+						}
+					}
+					return false
 				}
 				callees := res.callees(t)
 				for _, callee := range callees {
@@ -287,7 +293,7 @@ func stickyAnalyse(p *Prog, res *callResolver, pr stickyPair, passing map[sticky
 						switch {
 						case isFrameType(rt):
 							if !errored[r] {
-								problems = append(problems, fmt.Sprintf("the value returned at %s is not known to carry the error", p.instrPos(in)))
+								problems = append(problems, fmt.Sprintf("the value returned at %s is not known to carry the incoming error (Err cleared, or replaced by a freshly constructed error)", p.instrPos(in)))
 							}
 						case isErrorType(rt):
 							if cst, ok := r.(*ssa.Const); ok && cst.IsNil() {
@@ -340,6 +346,36 @@ func errTest(cond ssa.Value, errored map[ssa.Value]bool) (bool, bool) {
 	}
 	nonNilOnTrue := (b.Op == token.NEQ) == val
 	return true, nonNilOnTrue
+}
+
+// errValueIncoming: v is the Err of an errored frame, possibly wrapped by qerrors.Propagate - "that error",
+// not a freshly constructed one.
+func errValueIncoming(v ssa.Value, errored map[ssa.Value]bool) bool {
+	if fld, _ := fieldOf(v); fld != nil && fld.Name() == "Err" {
+		return errValueNonNil(v, errored)
+	}
+	switch t := v.(type) {
+	case *ssa.MakeInterface:
+		return errValueIncoming(t.X, errored)
+	case *ssa.ChangeInterface:
+		return errValueIncoming(t.X, errored)
+	case *ssa.Call:
+		if o := calleeObj(t); o != nil && o.Pkg() != nil && o.Pkg().Path() == rel("qerrors") && o.Name() == "Propagate" {
+			for _, a := range t.Call.Args {
+				if isErrorType(a.Type()) {
+					return errValueIncoming(a, errored)
+				}
+			}
+		}
+	case *ssa.Phi:
+		for _, e := range t.Edges {
+			if !errValueIncoming(e, errored) {
+				return false
+			}
+		}
+		return len(t.Edges) > 0
+	}
+	return false
 }
 
 // errValueNonNil: v is the Err of an errored frame, or a freshly constructed error.
